@@ -25,7 +25,7 @@ import re
 import sys
 import threading
 
-_WITH_RE = re.compile(r"^\s*with\s+([A-Za-z_][A-Za-z_0-9]*)\s*:")
+_WITH_RE = re.compile(r"^\s*with\s+([A-Za-z_][A-Za-z_0-9]*(?:\.[A-Za-z_][A-Za-z_0-9]*)*)\s*:")
 
 
 class Stop:
@@ -168,7 +168,10 @@ class Scheduler:
         if not m:
             return False
         try:
-            obj = st.frame.f_locals.get(m.group(1))
+            parts = m.group(1).split(".")
+            obj = st.frame.f_locals.get(parts[0])
+            for a in parts[1:]:
+                obj = getattr(obj, a, None)
             lk = getattr(obj, "locked", None)
             return bool(lk()) if lk is not None else False
         except Exception:  # noqa: BLE001
